@@ -4,7 +4,7 @@
   actors/miner/src/{partition_state,expiration_queue,bitfield_queue}.rs, the Level-1 specification
   `BA.Sector.Spec`, and the model `BA.Sector.Alloc` of `State::allocate_sector_numbers`.
 -/
-import BA.Lemmas.Sector.FullStep2
+import BA.Lemmas.Sector.Replace
 import BA.Model.Sector.Alloc
 
 namespace BA.Sector
@@ -70,33 +70,16 @@ theorem status_refines_level1_partial (env : Env) (p p' : Partition) (op : Op) (
 
 /-! ### memo = recomputed value (Level 2 refines Level 1 on the summaries) -/
 
-/-- what is required of a call for the memo theorem: bitfield arguments, table infos of distinct
-    sectors for add_sectors, and the call is one of the eleven methods of `TierC` (all methods
-    except replace_sectors) -/
-def MemoOp (tbl : Table) (op : Op) : Prop := OpWF op ∧ OpWF2 tbl op ∧ TierC op
-
-theorem invs_run {env : Env} (hw : TableWF env.tbl) :
-    ∀ (ops : List Op) (p : Partition), FullInv env.tbl p →
-      (∀ op ∈ ops, MemoOp env.tbl op) → FullInv env.tbl (run env p ops) := by
-  intro ops
-  induction ops with
-  | nil => intro p h _; exact h
-  | cons op rest ih =>
-    intro p h hops
-    obtain ⟨h1, h2, h3⟩ := hops op (by simp)
-    simp only [run]
-    apply ih _ _ (fun o ho => hops o (by simp [ho]))
-    unfold step
-    cases hs : stepE env p op with
-    | error e => exact h
-    | ok r => obtain ⟨p', ret⟩ := r; exact fullInv_stepE2 hw h h1 h2 h3 hs
-
-/-- **memo_eq_recompute_partial.** After every sequence of add_sectors (proven or not),
-    record_faults, declare_faults_recovered, recover_faults, activate_unproven, record_missed_post,
-    record_skipped_faults, pop_expired_sectors, terminate_sectors, reschedule_expirations and
-    pop_early_terminations — eleven of the twelve partition methods — with arbitrary sector sets,
-    epochs and quantisation (the infos handed to add_sectors are the table's infos of distinct
-    sectors), EVERY memo of the partition equals the value recomputed from the individual sectors:
+/-- **memo_eq_recompute.** After every sequence of calls of ALL TWELVE partition methods —
+    add_sectors (proven or not), record_faults, declare_faults_recovered, recover_faults,
+    activate_unproven, record_missed_post, record_skipped_faults, pop_expired_sectors,
+    terminate_sectors, reschedule_expirations, replace_sectors, pop_early_terminations — with
+    arbitrary sector sets, epochs and quantisation, valid or not (a failing call changes nothing),
+    EVERY memo of the partition equals the value recomputed from the individual sectors of the
+    current sector table (`runT`: the table follows replace_sectors, whose caller stores the new
+    infos; `RunOK`: bitfield arguments are duplicate-free, add_sectors gets the table's infos of
+    distinct sectors, replace_sectors gets the table's infos of distinct old sectors and new infos
+    with distinct numbers none of which is another sector of the partition):
     * the four power memos `live_power`, `unproven_power`, `faulty_power`, `recovering_power` and
       `active_power()` equal the Level-1 sums over the sectors' statuses at the abstracted state;
     * the expiration queue's keys are strictly ascending, no sector is scheduled in two entries or
@@ -104,18 +87,17 @@ theorem invs_run {env : Env} (hw : TableWF env.tbl) :
       epoch: `on_time_pledge` = Σ pledge of the on-time sectors, `active_power` = Σ power of the
       on-time sectors that are not faulty, `faulty_power` = Σ power of the faulty on-time sectors
       and of the early sectors, `fee_deduction` = Σ daily fee of all sectors of the entry.
-
-    PARTIAL — not yet proved (validated only by the differential correspondence and the
-    recomputation oracle on the real code): replace_sectors (it changes the sector table, which
-    is a fixed parameter of `run` here); Deadline-level counters. -/
-theorem memo_eq_recompute_partial (env : Env) (ops : List Op) (hw : TableWF env.tbl)
-    (hops : ∀ op ∈ ops, MemoOp env.tbl op) :
-    let p := run env Partition.new ops
-    (p.livePower = Spec.livePower env.tbl p.abs ∧
-     p.unprovenPower = Spec.unprovenPower env.tbl p.abs ∧
-     p.faultyPower = Spec.faultyPower env.tbl p.abs ∧
-     p.recoveringPower = Spec.recoveringPower env.tbl p.abs ∧
-     p.activePower = Spec.activePower env.tbl p.abs) ∧
+    Not part of this model: the Deadline-level counters (live_sectors, total_sectors, faulty_power,
+    daily_fee, expirations_epochs), checked by the actor-level oracle only. -/
+theorem memo_eq_recompute (env : Env) (ops : List Op) (hw : TableWF env.tbl)
+    (hok : RunOK env Partition.new ops) :
+    let tbl := (runT env Partition.new ops).1.tbl
+    let p := (runT env Partition.new ops).2
+    (p.livePower = Spec.livePower tbl p.abs ∧
+     p.unprovenPower = Spec.unprovenPower tbl p.abs ∧
+     p.faultyPower = Spec.faultyPower tbl p.abs ∧
+     p.recoveringPower = Spec.recoveringPower tbl p.abs ∧
+     p.activePower = Spec.activePower tbl p.abs) ∧
     Sorted p.expirations ∧
     (∀ e1 es1 e2 es2, (e1, es1) ∈ p.expirations → (e2, es2) ∈ p.expirations →
       ∀ x, x ∈ es1.onTime ++ es1.early → x ∈ es2.onTime ++ es2.early → e1 = e2) ∧
@@ -123,12 +105,12 @@ theorem memo_eq_recompute_partial (env : Env) (ops : List Op) (hw : TableWF env.
       (es.onTime ++ es.early).Nodup ∧
       (∀ x ∈ es.onTime ++ es.early, x ∈ p.sectors ∧ x ∉ p.terminated) ∧
       (∀ x ∈ es.early, x ∈ p.faults) ∧
-      es.pledge = sumBy (tw env.tbl (·.pledge)) es.onTime ∧
-      es.active = powOf env.tbl (diff es.onTime p.faults) ∧
-      es.faulty = powOf env.tbl (inter es.onTime p.faults ++ es.early) ∧
-      es.fee = sumBy (tw env.tbl (·.fee)) (es.onTime ++ es.early)) := by
-  intro p
-  have h := invs_run hw ops Partition.new (fullInv_new _) hops
+      es.pledge = sumBy (tw tbl (·.pledge)) es.onTime ∧
+      es.active = powOf tbl (diff es.onTime p.faults) ∧
+      es.faulty = powOf tbl (inter es.onTime p.faults ++ es.early) ∧
+      es.fee = sumBy (tw tbl (·.fee)) (es.onTime ++ es.early)) := by
+  intro tbl p
+  obtain ⟨_, h⟩ := fullInv_runT ops env Partition.new hw (fullInv_new _) hok
   refine ⟨memo_eq_spec h.sets h.memo, h.queue.sorted, h.queue.disj, ?_⟩
   intro e es hm
   have he := h.queue.entry e es hm
@@ -159,12 +141,9 @@ theorem pop_expired_memo_given_queue_memos (tbl : Table) (p p' : Partition) (u :
 
 /-! ### `Partition::validate_state` never turns a valid operation into an error -/
 
-/-- **validate_state_never_fires_partial.** Whenever the set relations and the memo equalities hold
-    (powers in the table non-negative), `Partition::validate_state` (power part and bitfield part)
-    passes — so the check at the end of a method can only fire if the method itself broke the
-    bookkeeping.  PARTIAL: `ExpirationSet::validate_state` (non-negative per-epoch memos) is not
-    covered, since the per-epoch memo invariant is not proved yet. -/
-theorem validate_state_never_fires_partial (tbl : Table) (p : Partition) (hn : TableNonneg tbl)
+/-- Whenever the set relations and the memo equalities hold (powers in the table non-negative),
+    `Partition::validate_state` (power part and bitfield part) passes. -/
+theorem partition_validate_of_invariants (tbl : Table) (p : Partition) (hn : TableNonneg tbl)
     (hs : SetInv p) (hm : MemoInv tbl p) : p.validate = .ok () :=
   validate_of_inv hn hs hm
 
@@ -195,15 +174,15 @@ theorem expset_validate_of_entryOK {tbl : Table} {F L : NatSet} {es : ExpSet} (h
   simp only [guard_ok]
   exact ⟨by omega, by omega, by omega, by omega, by omega, by omega, trivial⟩
 
-/-- **validate_state_never_fires_reachable_partial.** In every state reached by the operations of
-    `memo_eq_recompute_partial` (non-negative powers, pledges and fees in the table) both
-    `Partition::validate_state` and `ExpirationSet::validate_state` of every queue entry pass.
-    PARTIAL only in the set of operations (replace_sectors is not covered). -/
-theorem validate_state_holds_reachable (env : Env) (ops : List Op) (hw : TableWF env.tbl)
-    (hn : TableNonneg2 env.tbl) (hops : ∀ op ∈ ops, MemoOp env.tbl op) :
-    (run env Partition.new ops).validate = .ok () ∧
-    ∀ e es, (e, es) ∈ (run env Partition.new ops).expirations → es.validate = .ok () := by
-  have h := invs_run hw ops Partition.new (fullInv_new _) hops
+/-- **validate_state_never_fires.** In every state reached by any sequence of the twelve
+    partition methods (`RunOK` as in `memo_eq_recompute`; non-negative powers, pledges and fees in
+    the current table) both `Partition::validate_state` and `ExpirationSet::validate_state` of every
+    queue entry pass: the checks can only fire if a method itself broke the bookkeeping. -/
+theorem validate_state_never_fires (env : Env) (ops : List Op) (hw : TableWF env.tbl)
+    (hok : RunOK env Partition.new ops) (hn : TableNonneg2 (runT env Partition.new ops).1.tbl) :
+    (runT env Partition.new ops).2.validate = .ok () ∧
+    ∀ e es, (e, es) ∈ (runT env Partition.new ops).2.expirations → es.validate = .ok () := by
+  obtain ⟨_, h⟩ := fullInv_runT ops env Partition.new hw (fullInv_new _) hok
   exact ⟨validate_of_inv (fun n i ha => ⟨(hn n i ha).1, (hn n i ha).2.1⟩) h.sets h.memo,
     fun e es hm => expset_validate_of_entryOK hn (h.queue.entry e es hm)⟩
 
@@ -268,11 +247,17 @@ def exOps : List Op :=
   [.addSectors false exInfos, .recordFaults [1, 3] 40, .activateUnproven, .declareFaultsRecovered [1],
    .recoverFaults, .terminateSectors 45 [2], .recordMissedPost 60, .popExpiredSectors 70]
 
-example : ∀ op ∈ exOps, MemoOp exEnv.tbl op := by
-  intro op h
-  simp only [exOps, List.mem_cons, List.not_mem_nil, or_false] at h
-  rcases h with rfl | rfl | rfl | rfl | rfl | rfl | rfl | rfl <;>
-    simp [MemoOp, OpWF, OpWF2, TierA, TierB, TierC, exInfos, exTbl, exEnv, nums, alookup]
+def exNew : SectorInfo := { num := 2, raw := 32, qa := 64, pledge := 250, fee := 6, exp := 90 }
+/-- a history through add, activate, replace (sector 2 gets new power and expiration), faults and a
+    termination; its hypotheses `RunOK` hold -/
+def exOpsT : List Op :=
+  [.addSectors false exInfos, .activateUnproven,
+   .replaceSectors [{ num := 2, raw := 32, qa := 32, pledge := 200, fee := 4, exp := 55 }] [exNew],
+   .recordFaults [1, 3] 40, .terminateSectors 45 [2]]
+example : RunOK exEnv Partition.new exOpsT := by decide
+example : RunOK exEnv Partition.new exOps := by decide
+example : (runT exEnv Partition.new exOpsT).2.livePower = ⟨64, 360⟩ := by decide
+example : (runT exEnv Partition.new exOpsT).2.faults = [1, 3] := by decide
 example : TableWF exTbl := by
   intro n i h
   simp only [exTbl, alookup] at h
@@ -283,6 +268,7 @@ example : TableWF exTbl := by
     · split at h
       · cases h; simp_all
       · simp at h
+example : (runT exEnv Partition.new exOps).2.terminated = [2, 1, 3] := by decide
 example : (run exEnv Partition.new (exOps.take 5)).faults = [3] := by decide
 example : (run exEnv Partition.new (exOps.take 5)).livePower = ⟨96, 392⟩ := by decide
 example : (run exEnv Partition.new (exOps.take 5)).activePower = ⟨64, 72⟩ := by decide
